@@ -177,7 +177,11 @@ func (m *USB) DecodeFromBytes(data []byte, df gopacket.DecodeFeedback) error {
 	if m.Setup {
 		m.Payload = data[40:]
 	} else if m.Data {
-		m.Payload = data[uint32(len(data))-m.UrbDataLength:]
+		if uint64(m.UrbDataLength) > uint64(len(data)-40) {
+			df.SetTruncated()
+			return errors.New("USB URB data length exceeds packet")
+		}
+		m.Payload = data[len(data)-int(m.UrbDataLength):]
 	}
 
 	// if 64 bit, dissect_linux_usb_pseudo_header_ext
